@@ -105,6 +105,44 @@ def handle (fn : String) : Handler := fun a impl =>
         | _ => "ERR:refused"
       | _, _ => "ERR:refused"
     some (fR fCt model, spec)
+  | "keygen_op", [scheme, n, keyqs, t, mode, tern, drawn, seedinfo] =>
+    -- KEY GENERATION: the stored secret key from the ternary sample, the public key from (a, e); impl = `skpolys ntt cf polys`
+    let sch := pScheme scheme; let n := pNat n; let t := pNat t
+    let kqs := pList keyqs
+    let tern := (pPolys tern).getD 0 #[]; let drawn := pPolys drawn
+    let q0 := kqs.getD 0 1
+    let sk : Array Int := signed tern q0
+    let model : R (RnsPoly × Ct) := do
+      let l ← mkLevel sch n kqs t
+      let ct ← genPublicKey l sk (drawn.getD 0 #[]) (drawn.getD 1 #[]) (mode == "seed")
+      let ct ← if mode == "seed" && seedSaved l true then
+          match seedinfo.splitOn "@" with
+          | [sd, xd] => expandSeed Rng.randUniform (Drv.C16.xofOf (Drv.C16.pXofData xd)) l (ct.toSeeded (Drv.C16.unhex sd))
+          | _ => .error .other
+        else if seedinfo != "-" then .error .other else pure ct
+      pure (genSecretKey l tern, ct)
+    -- spec: the secret is ternary and encoded consistently in every component; the implementation's public key is an encryption of
+    -- zero under it: pk0 + pk1·s = −tt·e exactly modulo Q, with the drawn error, |e| ≤ 21
+    let spec : String :=
+      match mkLevel sch n kqs t with
+      | .ok l =>
+        match impl.splitOn " " with
+        | [skS, inttS, icf, ipolys] =>
+          let ict : Ct := ⟨pPolys ipolys, inttS == "1", pNat icf⟩
+          let Q := Spec.prodL kqs
+          let tt : Int := if sch = .bgv then (t : Int) else 1
+          let e := signed (drawn.getD 1 #[]) q0
+          let ph := exactPhase l kqs sk ict
+          let skOk := tern.size == kqs.length && (List.range n).all (fun j => (sk.getD j 0).natAbs ≤ 1) &&
+            (List.range kqs.length).all (fun i => (List.range n).all fun j => (tern.getD i #[]).getD j 0 == Spec.imod (sk.getD j 0) (kqs.getD i 1)) &&
+            (pPolys skS).getD 0 #[] == rnsNtt l tern
+          let eOk := (List.range n).all (fun j => (e.getD j 0).natAbs ≤ 21)
+          let metaOk := ict.cf == 1 && ict.ntt && ict.polys.size == 2
+          let ok := (List.range n).all fun j => Spec.imod (ph.getD j 0 + tt * e.getD j 0) Q == 0
+          relSpec impl (skOk && eOk && metaOk && ok) "key generation: secret not ternary / public key is not an encryption of zero with the drawn error"
+        | _ => "ERR:refused"
+      | _ => "ERR:refused"
+    some (fR (fun (x : RnsPoly × Ct) => s!"{fPolys #[x.1]} {fCt x.2}") model, spec)
   | _, _ => none
 
 end Drv.C01E
